@@ -106,6 +106,10 @@ def job_list_model(ctx):
     edge = [(f'e{i}{j}', v_ + d_) for i, v_ in enumerate(consts[:3]) for j, d_ in enumerate((-1, 0, 1))]
     combos = [combo for k in range(0, 5) for combo in itertools.permutations(pool, k) if not (k == 4 and combo[0][0] > combo[-1][0])]
     combos += [(e_,) for e_ in edge] + [(e_, pool[0]) for e_ in edge] + [(pool[2], e_, pool[4]) for e_ in edge] + [tuple(edge)]
+    # ... and a potential count threshold: enumerations with c - 1, c, c + 1 and 2c + 1 small contigs for the small constants
+    for c_ in [v_ for v_ in consts if v_ <= 200][:2]:
+        for m_ in (c_ - 1, c_, c_ + 1, 2 * c_ + 1):
+            combos.append(tuple((f's{i}', 40 + i) for i in range(m_)) + (pool[2], pool[4]))
     n = 0
     try:
         for combo in combos:
